@@ -21,7 +21,8 @@ from .c09 import oracle, pairs
 
 PID = "C18"
 VALUES = (None, 0, "")
-DECOS = ("plain", "guarded-parallel", "internal", "internal-actions", "multi-event")
+DECOS = ("plain", "guarded-parallel", "internal", "internal-actions", "multi-event",
+         "event-objects")
 
 
 def strip(x):
@@ -50,6 +51,12 @@ def make(n, edges, init, finals, deco, asyn=False, ids="s"):
         ns[IDSETS[ids][i]] = st[-1]
     exp_edges = Counter()
     internal = {i: [] for i in range(n)}
+    if deco == "event-objects":
+        # events declared first as Event objects without id (named by their class attribute
+        # later) and handed to the transitions through event=
+        from statemachine import Event
+        ns["e"] = Event(name="First event")
+        ns["f"] = Event(name="Second event")
     for k, (a, b) in enumerate(sorted(edges)):
         if deco == "plain":
             st[a].to(st[b], event="e")
@@ -71,6 +78,9 @@ def make(n, edges, init, finals, deco, asyn=False, ids="s"):
             else:
                 st[a].to(st[b], event="e")
                 exp_edges[(SID[a], SID[b], "e", "")] += 1
+        elif deco == "event-objects":
+            st[a].to(st[b], event=[ns["e"], ns["f"]] if k % 2 else ns["e"])
+            exp_edges[(SID[a], SID[b], "e f" if k % 2 else "e", "")] += 1
         elif deco == "multi-event":
             st[a].to(st[b], event=["e", "f"] if k % 2 else "e f g")
             exp_edges[(SID[a], SID[b], "e f" if k % 2 else "e f g", "")] += 1
@@ -214,10 +224,16 @@ def worker(block):
                                               dict(sc, of="class"), f"class diagram: {msg}")
                                 continue
                             sm = cls()
+                            kept = DotGraphMachine(sm)     # one renderer kept across the moves
                             for cur in reachable(n, edges, init):
                                 sm.current_state_value = getattr(cls, SID[cur]).value
                                 via = DotGraphMachine(sm)() if cur % 2 else sm._graph()
                                 msg = check_graph(via, exp, SID[cur])
+                                if not msg:
+                                    msg = check_graph(kept(), exp, SID[cur])
+                                    res.stats["transitions"] += 1
+                                    if msg:
+                                        msg = "renderer object reused after the machine moved: " + msg
                                 res.stats["transitions"] += 1
                                 res.hist["instance" + ("-falsy-value" if not sm.current_state_value
                                                        else "")] += 1
@@ -276,6 +292,12 @@ def replay(sc):
     if sc["of"] == "class":
         return check_graph(DotGraphMachine(cls)(), exp, None)
     sm = cls()
-    cur = sc["current"]
-    sm.current_state_value = getattr(cls, IDSETS[ids][cur]).value
-    return check_graph(sm._graph(), exp, IDSETS[ids][cur])
+    kept = DotGraphMachine(sm)
+    for cur in reachable(sc["n"], edges, sc["init"]):
+        sm.current_state_value = getattr(cls, IDSETS[ids][cur]).value
+        msg = check_graph(sm._graph(), exp, IDSETS[ids][cur]) or \
+            check_graph(DotGraphMachine(sm)(), exp, IDSETS[ids][cur]) or \
+            check_graph(kept(), exp, IDSETS[ids][cur])
+        if msg or cur == sc["current"]:
+            return msg
+    return None
